@@ -16,14 +16,15 @@ tvars == <<rvars, i>>
 Ev == Trace[i]
 
 TInit == RInit /\ i = 1
-Start == Ev.e = "omni.start" /\ published' = [l \in Logs |-> [b |-> 0, n |-> Ev.n]] /\ stored' = [l \in Logs |-> None]
+Start == Ev.e = "omni.start" /\ published' = [l \in Logs |-> [b |-> 0, n |-> Ev.n]] /\ stored' = [l \in Logs |-> None] /\ down' = {}
          /\ UNCHANGED <<nev, evs>> /\ i' = i + 1
 EvStep == /\ Ev.e = "omni.ev"
           /\ published' = IF Ev.a \in {"grow", "fork"} THEN [published EXCEPT ![Ev.l] = [b |-> Ev.b, n |-> Ev.n]] ELSE published
+          /\ down' = IF Ev.a = "outage" THEN down \cup {Ev.l} ELSE IF Ev.a = "recover" THEN down \ {Ev.l} ELSE down
           /\ UNCHANGED <<stored, nev, evs>> /\ i' = i + 1
 Obs == /\ Ev.e = "omni.obs"
        /\ stored' = [stored EXCEPT ![Ev.l] = Ev.served]
-       /\ UNCHANGED <<published, nev, evs>> /\ i' = i + 1
+       /\ UNCHANGED <<published, nev, evs, down>> /\ i' = i + 1
 TNext == i <= Len(Trace) /\ (Start \/ EvStep \/ Obs)
 TSpec == TInit /\ [][TNext]_tvars
 
@@ -34,13 +35,14 @@ MonObs ==
         st == stored[l]
         p == published[l]
         pcp == AsCP(p.b, p.n)
-        follows == st = None \/ Extends(st, pcp) \/ SameTree(st, pcp)
+        follows == l \notin down /\ (st = None \/ Extends(st, pcp) \/ SameTree(st, pcp))
     IN
     /\ Check("StaysOnWitnessedHistory", "-", st # None => Ev.served # None /\ Ev.served.b # 99 /\ (Extends(st, Ev.served) \/ SameTree(st, Ev.served)))
     /\ Check("ServedIsCosigned", "-", Ev.cosigned)
     /\ Check("CatchesUpWithHonestLog", IF st # None /\ st.n = 0 /\ p.n > 0 THEN "zero-size-wedge" ELSE "-",
              follows => Ev.served # None /\ SameTree(Ev.served, pcp))
-    /\ Check("StopsAtFork", "-", ~follows => Ev.served = st)
+    /\ Check("StopsAtFork", "-", l \notin down /\ ~follows => Ev.served = st)
+    /\ Check("KeepsServingDuringOutage", "-", l \in down => Ev.served = st)
 MonEv == Check("MainStopsCleanly", "-", Ev.mainerr = "")
 Monitor == CASE Ev.e = "omni.obs" -> MonObs [] Ev.e = "omni.ev" -> MonEv [] OTHER -> TRUE
 Done == TLCGet("stats").diameter - 1 = Len(Trace)
